@@ -11,11 +11,16 @@ from runtime import spec_c
 from runtime.harness import Harness
 
 
+def seed_tracer(tracer, s):
+    """Sampling draws come from the tracer's own generator (monkeytype 354a6d0); trees without it draw from the module-level one."""
+    getattr(tracer, "_random", random).seed(s)
+
+
 def traced_fraction(rate, n, seed):
-    random.seed(seed)
     col = Collector()
     with trace_calls(col, 0, only_progs, rate):
         tracer = sys.getprofile()
+        seed_tracer(tracer, seed)
         for i in range(n):
             progs.ret_value(i)
     return len(col.traces), len(tracer.traces), col
@@ -39,10 +44,10 @@ def run(ctx):
                         "sampling rate %s: traced %d of %d (residue %d, faithful %s)" % (rate, got, n, residue, faithful), {"rate": rate, "n": n, "seed": seed + 17}, got)
     H.section("no residue for unsampled generators", "many generator calls (run to exhaustion) under sampling: afterwards the tracer keeps no per-call state; every logged generator trace has its full yield type", "rates 2, 3; 400 calls")
     for rate in (2, 3):
-        random.seed(seed + 5)
         col = Collector()
         with trace_calls(col, 0, only_progs, rate):
             tracer = sys.getprofile()
+            seed_tracer(tracer, seed + 5)
             for i in range(400):
                 list(progs.gen_mixed())
         residue = len(tracer.traces)
@@ -56,13 +61,13 @@ def run(ctx):
     H.section("generator first sampled mid-life", "seeds of the sampling RNG such that the draw at a generator's start is non-zero and a later one is zero; the body rebinds its parameter between yields", "rate 2, first matching seeds")
     found = 0
     for s in range(200):
-        random.seed(s)
-        d = [random.randrange(2) for _ in range(3)]
+        rng = random.Random(s)
+        d = [rng.randrange(2) for _ in range(3)]
         if d[0] != 0 and (d[1] == 0 or d[2] == 0):
-            random.seed(s)
             col = Collector()
             with trace_calls(col, 0, only_progs, 2):
                 tracer = sys.getprofile()
+                seed_tracer(tracer, s)
                 list(progs.gen_rebind(7))
             found += 1
             bad = [t for t in col.traces if t.func is progs.gen_rebind and not spec_c.tyeq(t.arg_types.get("a"), int)]
@@ -78,13 +83,13 @@ def run(ctx):
               "rate 2, first matching seeds")
     found = 0
     for s in range(200):
-        random.seed(s)
-        d = [random.randrange(2) for _ in range(3)]
+        rng = random.Random(s)
+        d = [rng.randrange(2) for _ in range(3)]
         if d[0] == 0 and d[1] != d[2]:
-            random.seed(s)
             col = Collector()
             with trace_calls(col, 0, only_progs, 2):
                 tracer = sys.getprofile()
+                seed_tracer(tracer, s)
                 list(progs.gen_rebind(7))
             found += 1
             good = len(col.traces) == 1 and spec_c.tyeq(col.traces[0].arg_types.get("a"), int) and spec_c.tyeq(col.traces[0].yield_type, int) and len(tracer.traces) == 0
@@ -95,13 +100,32 @@ def run(ctx):
                             {"seed": s, "draws": d, "call": "gen_rebind(7)", "rate": 2}, [describe(t) for t in col.traces], "one trace: a: int, yields int")
             if found >= (3 if ctx["tier"] == "quick" else 30):
                 break
+    H.section("the program's random generator", "a seeded program run under sampling: the state of the module-level generator after the block equals the state of an untraced run; re-seeding it inside the block does not make the sampled subset repeat",
+              "rates 2, 10; 500 calls")
+    for rate in (2, 10):
+        random.seed(seed + 9)
+        for i in range(500):
+            progs.ret_value(i)
+        want = random.getstate()
+        random.seed(seed + 9)
+        col = Collector()
+        with trace_calls(col, 0, only_progs, rate):
+            for i in range(500):
+                progs.ret_value(i)
+        got = random.getstate()
+        if got == want:
+            H.ok("program-rng:rate=%d" % rate, sample={"rate": rate, "logged": len(col.traces)})
+        else:
+            H.violation("monkeytype.tracing:CallTracer.handle_call", "program-rng-consumed:rate=%d" % rate, "sampling draws from the traced program's random generator: a seeded program computes something else under tracing",
+                        {"rate": rate, "calls": 500, "seed": seed + 9}, "state differs", "state of the untraced run")
     H.section("nested tracing blocks", "a block with the rate unset inside a sampled block (and the reverse): each block's own rate decides", "outer 3 / inner None; outer None / inner 3; 600 calls")
     for outer, inner in ((3, None), (None, 3), (100, 1)):
-        random.seed(seed + 3)
         c_out, c_in = Collector(), Collector()
         m = 600
         with trace_calls(c_out, 0, only_progs, outer):
+            seed_tracer(sys.getprofile(), seed + 3)
             with trace_calls(c_in, 0, only_progs, inner):
+                seed_tracer(sys.getprofile(), seed + 4)
                 for i in range(m):
                     progs.ret_value(i)
         p = 1.0 if inner in (None, 1) else 1.0 / inner
